@@ -101,6 +101,38 @@ def props_registry():
     @model
     def m_check_gl(ip, args, kw):
         return [], []
+    # element-wise comparisons of parameter rows (lists of reals), so that a body that takes a short cut when two half steps have
+    # "the same" parameters is decided instead of being outside the subset
+    def _row(v):
+        if isinstance(v, Seq):
+            raise Unsupported('comparison of whole parameter arrays')
+        return [to_real(x) for x in v]
+
+    @model
+    def m_equal(ip, args, kw):
+        a, b = _row(args[0]), _row(args[1])
+        if len(a) != len(b):
+            raise Unsupported('broadcast comparison')
+        return Obj('BoolRow', {'items': [x == y for x, y in zip(a, b)]})
+
+    @model
+    def m_row_any(ip, args, kw):
+        return z3.Or(args[0].fields['items']) if args[0].fields['items'] else z3.BoolVal(False)
+
+    @model
+    def m_row_all(ip, args, kw):
+        return z3.And(args[0].fields['items']) if args[0].fields['items'] else z3.BoolVal(True)
+
+    @model
+    def m_array_equal(ip, args, kw):
+        a, b = _row(args[0]), _row(args[1])
+        return z3.And([x == y for x, y in zip(a, b)]) if len(a) == len(b) else z3.BoolVal(False)
+    R.lib_models['numpy.equal'] = m_equal
+    R.lib_models['numpy.array_equal'] = m_array_equal
+    R.models['BoolRow.any'] = m_row_any
+    R.models['BoolRow.all'] = m_row_all
+    R.lib_models['numpy.any'] = m_row_any
+    R.lib_models['numpy.all'] = m_row_all
     R.lib_models['inspect.getfullargspec'] = m_argspec
     R.lib_models['numpy.vectorize'] = m_ident
     R.models['system._check_hamiltonian'] = m_noop
@@ -276,6 +308,38 @@ def hist_registry():
             val = ip2.call(fun, [a2[0]], {})
             return uf('Jacobian_of', val)
         return J
+    # element-wise comparisons of parameter rows (lists of reals), so that a body that takes a short cut when two half steps have
+    # "the same" parameters is decided instead of being outside the subset
+    def _row(v):
+        if isinstance(v, Seq):
+            raise Unsupported('comparison of whole parameter arrays')
+        return [to_real(x) for x in v]
+
+    @model
+    def m_equal(ip, args, kw):
+        a, b = _row(args[0]), _row(args[1])
+        if len(a) != len(b):
+            raise Unsupported('broadcast comparison')
+        return Obj('BoolRow', {'items': [x == y for x, y in zip(a, b)]})
+
+    @model
+    def m_row_any(ip, args, kw):
+        return z3.Or(args[0].fields['items']) if args[0].fields['items'] else z3.BoolVal(False)
+
+    @model
+    def m_row_all(ip, args, kw):
+        return z3.And(args[0].fields['items']) if args[0].fields['items'] else z3.BoolVal(True)
+
+    @model
+    def m_array_equal(ip, args, kw):
+        a, b = _row(args[0]), _row(args[1])
+        return z3.And([x == y for x, y in zip(a, b)]) if len(a) == len(b) else z3.BoolVal(False)
+    R.lib_models['numpy.equal'] = m_equal
+    R.lib_models['numpy.array_equal'] = m_array_equal
+    R.models['BoolRow.any'] = m_row_any
+    R.models['BoolRow.all'] = m_row_all
+    R.lib_models['numpy.any'] = m_row_any
+    R.lib_models['numpy.all'] = m_row_all
     R.lib_models['inspect.getfullargspec'] = m_argspec
     R.lib_models['numpy.vectorize'] = m_ident
     R.lib_models['numdifftools.Jacobian'] = m_jacobian
